@@ -595,6 +595,7 @@ extern  void    ADFI_read_data_chunk(
 extern  void    ADFI_read_data_chunk_table(
             const unsigned int file_index,
             const struct DISK_POINTER *block_offset,
+            const unsigned int number_of_data_chunks,
             struct DATA_CHUNK_TABLE_ENTRY data_chunk_table[],
             int *error_return ) ;
 
